@@ -477,6 +477,40 @@ pub fn hidden_move(rng: &mut Rng) -> T {
     T::Player(first, 0, top)
 }
 
+/// a chance infoset with `n` outcomes met twice on one path: almost all weight on the last three
+/// outcomes, which lead to a second node of the same infoset (same weights); below it a decision of
+/// player one whose infoset tells whether the *shared* outcome was followed.  Wide enough tables
+/// catch an index kept in too narrow an integer.
+pub fn chance_fan(rng: &mut Rng, n: usize) -> T {
+    let ws: Vec<f64> = (0..n).map(|j| if j + 3 >= n { 1.0 + (j % 3) as f64 } else { 1e-9 }).collect();
+    let leaf = |rng: &mut Rng, info: u32| T::Player(true, info, vec![(0, T::Term(rng.unit())), (1, T::Term(-rng.unit()))]);
+    let second = |rng: &mut Rng, first: usize| {
+        T::Chance(
+            Some(0),
+            (0..n)
+                .map(|j| (ws[j], if j == first { leaf(rng, 1) } else if j + 3 >= n { leaf(rng, 2) } else { T::Term(0.0) }))
+                .collect(),
+        )
+    };
+    T::Chance(
+        Some(0),
+        (0..n).map(|j| (ws[j], if j + 3 >= n { second(rng, j) } else { T::Term(0.25) })).collect(),
+    )
+}
+
+/// an infoset of player two with `n` actions at two nodes (player two does not see player one's
+/// move): the external sampler draws her action once per pass and must follow it at both nodes
+pub fn player_fan(rng: &mut Rng, n: usize) -> T {
+    let col: Vec<f64> = (0..n).map(|_| rng.unit() * 2.0 - 1.0).collect();
+    T::Player(
+        true,
+        0,
+        (0..2u32)
+            .map(|a| (a, T::Player(false, 0, (0..n).map(|b| (b as u32, T::Term(if a == 0 { col[b] } else { -col[b] } + 0.1 * a as f64))).collect())))
+            .collect(),
+    )
+}
+
 /// a lottery in front of a game: one chance outcome ends the game at once (a pass that draws it
 /// moves no regret at all), the other leads to a matrix game whose equilibrium is not uniform
 pub fn lottery(rng: &mut Rng) -> T {
@@ -633,7 +667,7 @@ fn with_nth(t: &mut T, n: &mut usize, f: &mut dyn FnMut(&mut T)) -> bool {
 
 /// plant one random mutation that *may* violate the contract at a random node
 pub fn plant(rng: &mut Rng, t: &T) -> (T, &'static str) {
-    let kind = rng.below(12);
+    let kind = rng.below(13);
     plant_kind(rng, t, kind)
 }
 
@@ -654,6 +688,7 @@ pub fn plant_kind(rng: &mut Rng, t: &T, kind: u64) -> (T, &'static str) {
         8 => "permute-actions",
         9 => "drop-action",
         10 => "relabel-chance",
+        12 => "extreme-weight",
         _ => "swap-player",
     };
     let mut r2 = rng.fork();
@@ -710,6 +745,17 @@ pub fn plant_kind(rng: &mut Rng, t: &T, kind: u64) -> (T, &'static str) {
             }
             (11, T::Player(p, _, _)) => {
                 *p = !*p;
+                applied = true;
+            }
+            // positive finite weights at the ends of the double range are valid weights
+            (12, T::Chance(_, o)) if !o.is_empty() => {
+                let all = r2.chance(0.5);
+                let j = r2.below(o.len() as u64) as usize;
+                for (k, out) in o.iter_mut().enumerate() {
+                    if all || k == j {
+                        out.0 = *r2.pick(&[5e-324, 1e-310, 2.2250738585072014e-308, 1e-300, 1e300, 3e-320]);
+                    }
+                }
                 applied = true;
             }
             _ => {}
